@@ -27,7 +27,7 @@ def EXHAUSTIVE(tier):
 
 
 def plan(tier):
-    return {"n_random": 120 if tier == "quick" else 0, "item_draws": 2, "time_s": 700 if tier == "quick" else 1750, "shrink_evals": 0}
+    return {"n_random": 240 if tier == "quick" else 0, "item_draws": 2, "time_s": 700 if tier == "quick" else 1750, "shrink_evals": 0}
 
 
 def combos():
@@ -49,10 +49,7 @@ def item_strategy(item, tier):
 
 @st.composite
 def _random(draw):
-    allc = combos()
-    mono = [c for c in allc if c["form"] == "monolayer"]
-    c = draw(st.sampled_from(mono)) if draw(st.integers(0, 5)) == 0 else draw(st.sampled_from(allc))
-    return {"combo": c, "pres": draw(gm.presentations())}
+    return draw(mcm.case_strategy(combos()))
 
 
 def strategy(tier):
